@@ -148,4 +148,62 @@ def genShouldRerun (c : Cfg) (w : Option Worker) (shared : List Result) : Except
        return False
 -/
 
+/-- `self.should_rerun(worker)` inside `default_run_decision`: the state is whether the instance attribute
+`should_rerun` has been replaced by `lambda _: False` -/
+def rerunM (c : Cfg) (w : Worker) (shared : List Result) : StateT Bool (Except Err) Bool :=
+  fun disabled => if disabled then .ok (false, disabled) else (genShouldRerun c (some w) shared).map (fun b => (b, disabled))
+
+/-- `TestNode.default_run_decision` of avocado_i2n/cartgraph/node.py.  `finished` = `self.is_finished(worker, 1)`, `scanRun` = the outcome of `self.scan_states()`; the state of the monad is whether `self.should_rerun` has been replaced by `lambda _: False` -/
+def genDefaultRunDecision (c : Cfg) (w : Worker) (shared : List Result) (finished : Bool) (scanRun : Bool) : StateT Bool (Except Err) (Bool) := do
+  if ((c.dryRun.getD "no") == "yes") then
+    return false
+  else if c.flat then
+    return false
+  else if c.cloneSource then
+    return false
+  else if (!(isSubstr w.id c.name)) then
+    throw Err.runtimeError
+  let mut should_run : Bool := false
+  if (!c.stateful) then
+    let mut pyTmp1 : Bool := shared.isEmpty
+    if (!pyTmp1) then
+      pyTmp1 := (← rerunM c w shared)
+    should_run := pyTmp1
+  else
+    let mut should_scan : Bool := (!finished)
+    let mut should_run_from_scan : Bool := (if should_scan then scanRun else false)
+    if ((genFilteredResults c c.startedWorker shared).isEmpty && (!should_run_from_scan)) then
+      set true
+    should_run := (if should_scan then should_run_from_scan else false)
+    let mut pyTmp2 : Bool := should_run
+    if (!pyTmp2) then
+      pyTmp2 := (← rerunM c w shared)
+    should_run := pyTmp2
+  return should_run
+
+/- the Python it was generated from (comments and docstring dropped):
+   def default_run_decision(self, worker: TestWorker) -> bool:
+       if self.params.get('dry_run', 'no') == 'yes':
+           logging.info(f'Should not run via dry test run {self}')
+           return False
+       elif self.is_flat():
+           logging.debug(f'Should not run a flat node {self}')
+           return False
+       elif len(self.cloned_nodes) > 0:
+           logging.debug(f'Should not run a cloned node {self}')
+           return False
+       elif worker.id not in self.params['name']:
+           raise RuntimeError(f'Worker {worker.id} should not try to run {self}')
+       if len(self.get_stateful_objects()) == 0:
+           should_run = len(self.shared_results) == 0 or self.should_rerun(worker)
+       else:
+           should_scan = not self.is_finished(worker, 1)
+           should_run_from_scan = self.scan_states() if should_scan else False
+           if len(self.shared_filtered_results) == 0 and (not should_run_from_scan):
+               self.should_rerun = lambda _: False
+           should_run = should_run_from_scan if should_scan else False
+           should_run = should_run or self.should_rerun(worker)
+       return should_run
+-/
+
 end I2N.Extracted.GenRules
